@@ -100,6 +100,11 @@ def main():
         w = gen_trace(rng, vs, N, S)
         fac = rng.choice(["StlDiscreteTimeSpecification", "StlDiscreteTimeOnlineSpecification"])
         evs = [ev_parse()] + [ev_update(t, sample_at(w, t), flt=rng.random() < 0.5) for t in range(N)]
+        if rng.random() < 0.12:
+            # update() calls that leave variables out: a variable keeps the value it was last given (0 if never): the result is
+            # still a function of what was fed so far
+            for e_ in evs[1:]:
+                e_["s"] = {v_: x_ for v_, x_ in e_["s"].items() if rng.random() < 0.65}
         o = dt_obj(phi, S, vs, factory=fac)
         if rng.random() < 0.15:
             # the same monitor written with named sub-specifications (each is an assertion of its own *and* is referred to by a
